@@ -145,7 +145,7 @@ func (o *diffOracle) OnWrite(s *Sim, w *Write) {
 				managed = true
 			}
 		}
-		if managed || ok.GK == gkService {
+		if managed || ok.GK == gkService || ok.GK == gkConfigMap {
 			continue
 		}
 		if live := s.Store.Peek(ok); live == nil || !reflect.DeepEqual(specJSON(live), specJSON(orig)) || !reflect.DeepEqual(live.GetAnnotations(), orig.GetAnnotations()) {
